@@ -10,4 +10,11 @@ INIT Init
 NEXT Next
 VIEW viewE
 ACTION_CONSTRAINT ExportG
+INVARIANT TypeOK
+INVARIANT PendingPure
+INVARIANT NeverMerged
+PROPERTY NeverMergedA
+PROPERTY ExactlyOnceAfterFinal
+PROPERTY AllPartsInOrder
+PROPERTY Isolation
 CHECK_DEADLOCK FALSE
